@@ -117,6 +117,7 @@ pub fn reference(req: &Request) -> RefResult {
         polls: Vec::new(),
         poll_steps: Vec::new(),
         unstable: false,
+            budget_sensitive: false,
     };
     let (compiled, csteps) = guarded(0, || compile(&req.key));
     let compiled = match compiled {
